@@ -104,6 +104,8 @@ def main():
         cfgs = [dict(comp="gzip", bs=B, j=1, Q=1), dict(comp="gzip", bs=B, j=4, Q=1000)]
         # per-file packing flags from a sort file change the block flags the writer sees (uncompressed blocks all have equal stored size)
         cfgs += [dict(comp="gzip", bs=B, j=1, Q=1, sort="dont_compress"), dict(comp="gzip", bs=B, j=2, Q=3, sort="dont_fragment")]
+        # options that must have nothing to do with deduplication: export table, no tail packing, device block size
+        cfgs += [dict(comp="gzip", bs=B, j=1, Q=1, e=1), dict(comp="gzip", bs=B, j=2, Q=3, T=1, B=8192)]
         if not cr.quick:
             cfgs += [dict(comp="lz4", bs=B, j=2, Q=3), dict(comp="zstd", bs=B, j=1, Q=1), dict(comp="xz", bs=B, j=3, Q=1000),
                      dict(comp="gzip", bs=B, j=1, Q=1, sort="nosparse"), dict(comp="zstd", bs=B, j=4, Q=1000, sort="dont_compress,dont_fragment")]
